@@ -5,7 +5,7 @@
 //        -> "dec <n> | <pri> <pgn> <dst> <src> <time> <datahex> | ... | st <coming><sot><escd> <pos> <bytesum> | skip <hex>"
 //        fill  : byte value MsgBuf[] holds before the first byte arrives (the constructor leaves it uninitialised)
 //        now   : virtual clock in ms (time stamp of request-type frames), dsrc : SetDefaultSource
-//        ro    : ReadOut argument of GetMessageFromStream (1 = default).  With 0 the reader leaves bytes that cannot belong to
+//        ro    : ReadOut argument of GetMessageFromStream (1 = default); 2 = the one-argument call (default argument); 3 = ParseMessages() with a handler.  With 0 the reader leaves bytes that cannot belong to
 //                a frame in the stream; the harness then plays the other protocol handler, removes that byte and lists it after "skip"
 //        cuts  : "-" (whole stream available at once) | "e<k>" (chunks of k bytes) | "p1,p2,.." (cut positions); the reader is
 //                called until it returns false with an empty stream, then the next chunk becomes available
@@ -62,7 +62,10 @@ static std::vector<size_t> cut_list(const std::string &c, size_t n) {
 }
 
 // run a reader over the stream; appends the reported messages to [res]; returns the number of messages
-static int decode(MemStream &ms, const std::string &cuts, int fill, unsigned dsrc, bool ro, std::string &res, std::string &tail) {
+static std::string *g_pm_res = 0; static int *g_pm_n = 0;
+static void pm_handler(const tN2kMsg &m) { if (g_pm_res) { *g_pm_res += msg_text(m); (*g_pm_n)++; } }
+// ro: 0 / 1 = ReadOut argument given explicitly; 2 = GetMessageFromStream(msg) with its default argument; 3 = ParseMessages() with a handler
+static int decode(MemStream &ms, const std::string &cuts, int fill, unsigned dsrc, int ro, std::string &res, std::string &tail) {
   tActisenseReader *rd = new tActisenseReader();
   memset(rd->MsgBuf, fill, sizeof rd->MsgBuf);
   rd->SetDefaultSource((unsigned char)dsrc);
@@ -79,7 +82,8 @@ static int decode(MemStream &ms, const std::string &cuts, int fill, unsigned dsr
     for (;;) {
       size_t before = ms.rp;
       g->m.TPMessage = false;
-      bool got = rd->GetMessageFromStream(g->m, ro);
+      if (ro == 3) { g_pm_res = &res; g_pm_n = &n; rd->SetMsgHandler(pm_handler); rd->ParseMessages(); g_pm_res = 0; if (ms.rp < ms.avail && ms.rp == before) ms.rp = ms.avail; break; }
+      bool got = ro == 2 ? rd->GetMessageFromStream(g->m) : rd->GetMessageFromStream(g->m, ro != 0);
       for (size_t k = 0; k < 16; k++) if (g->pre[k] != 0xC3 || g->post[k] != 0xC3) canary = " canary guard-bytes";
       if (g->m.TPMessage) canary = " canary TPMessage";
       if (g->m.DataLen < 0 || g->m.DataLen > tN2kMsg::MaxDataLen) { canary = " canary DataLen"; g->m.DataLen = 0; }
@@ -233,7 +237,7 @@ int main() {
       m.SendInActisenseFormat(&ms);
       printf("enc %s\n", hex(ms.out.data(), ms.out.size()).c_str());
     } else if (t[0] == "DEC" && t.size() >= 7) {
-      int fill = (int)tounum(t[1]); verif_now_ms = tounum(t[2]); unsigned dsrc = (unsigned)tounum(t[3]); bool ro = tounum(t[4]) != 0;
+      int fill = (int)tounum(t[1]); verif_now_ms = tounum(t[2]); unsigned dsrc = (unsigned)tounum(t[3]); int ro = (int)tounum(t[4]);
       MemStream ms; ms.in = unhex(t[6]);
       std::string res, tail;
       int n = decode(ms, t[5], fill, dsrc, ro, res, tail);
